@@ -14,20 +14,24 @@
 (*   Dlv(pk)  a packet is delivered: validators, handlers, flags           *)
 (*   Drop(pk) a shares packet is lost: at most MaxLoss per receiver, and   *)
 (*            only of a list that all K keypers sent shares for (so the    *)
-(*            receiver keeps T shares)                                     *)
-(* Lag: u.lag[k] = <<p, ph>>.  p >= 1: keyper k processes block n iff       *)
-(* n % p = ph or n is the last block (every block / every 2nd / 3rd block: *)
-(* its sync ranges span up to p blocks).  p = 0: free - it may skip any    *)
-(* head as long as its next range spans at most ph blocks.                 *)
+(*            receiver keeps T shares); MaxLossTotal bounds the losses of  *)
+(*            one behaviour (state-space bound only)                       *)
+(* Lag: u.sched[k+1] = the block numbers keyper k processes (always the    *)
+(* last one): every block, every 2nd / 3rd block, the first block(s)       *)
+(* skipped ...; its sync range spans all blocks since the one it processed *)
+(* last.  The schedule is part of the universe (exploring every skip       *)
+(* pattern inside one universe costs 3*10^6 states for four blocks).       *)
+(* ProcNet bounds how many packets may be in flight when a keyper starts  *)
+(* processing a block (0: the network is drained first).                   *)
 (* Network order: Order = "any": the network is a bag, any packet may be   *)
 (* delivered next; Order = "fifo": one queue per (sender, receiver) link,  *)
 (* packets of one sender reach a receiver in the order sent, packets of    *)
 (* different senders in any order.                                         *)
 (*                                                                         *)
-(* Universes (the static scenario + the chain contents + the lags) are     *)
+(* Universes (static scenario + chain contents + keyper schedules) are     *)
 (* chosen by NUMBER by the harness: DesignedIdx picks hand-written ones,   *)
 (* UniIdx are seeded numbers decoded here (UniAt, mixed radix over         *)
-(* BlockOpts^NB x StaticOpts x LagOpts).  Inside a universe TLC explores   *)
+(* BlockOpts^NB x StaticOpts x SchedOpts^K). Inside a universe TLC explores *)
 (* every interleaving of the actions above.  All bounds are functions of   *)
 (* the state.  hist / obs are hidden from the VIEW; TLC prints the history *)
 (* of every transition into a final state (chain complete, every keyper    *)
@@ -36,13 +40,15 @@
 (* Checked on every transition: E1 (on the code-shaped layer's own         *)
 (* triggers), E2 against what every other keyper with the same previous    *)
 (* block WOULD emit for the same head from its present tables, E3_Accepted *)
-(* and E3_KeysGood; at every quiescent state E3_AllHaveKeys / E3_Flagged.  *)
+(* and E3_KeysGood; at every quiescent state E3_AllHaveKeys.  E3_Flagged   *)
+(* (FlagsOK) is NOT an invariant of the code as it is: the behaviours      *)
+(* that end with a flag missing are printed with the tag X_Flagged.        *)
 (***************************************************************************)
 EXTENDS ServiceE2EProps, Json
 
 CONSTANTS DesignedIdx, UniIdx,     \* sequences of naturals
           NB,                      \* chain length of the seeded universes
-          MaxLoss, MaxLossTotal, Order, AllowKnown, AllowFork, Emit, EMod, EPhase
+          MaxLoss, MaxLossTotal, ProcNet, Order, AllowKnown, AllowFork, Emit, EMod, EPhase
 
 VARIABLES ui, blk, canon, forked, ks, nd, net, lastp, cuts, dropped, obs, hist
 vars == <<ui, blk, canon, forked, ks, nd, net, lastp, cuts, dropped, obs, hist>>
@@ -68,38 +74,47 @@ NoFork == [at |-> 0, b |-> NoB]
      the keyper that processes every block never triggers identity 2, the lagging ones do
    5 failed DKG of the other set; log in the registration block itself (must not fire), two later
      logs (first one wins)
-   6 everything early: both identities and the trigger in block 1, log in block 2
-   7 small: all three keypers send the same time list in block 2 (losses possible), keyper 2 syncs
-     the trigger's registration and log in one range *)
+   6 everything early: both identities (timestamps in the opposite order of the slots) and the
+     trigger in block 1, log in block 2
+   8 expiry edge: trigger with expiry block 2, the only matching log in block 3; keyper 0 syncs block
+     by block (the trigger is expired at the start of its last range), keyper 1 syncs [2,3] in one
+     range (active at the range start, the log must be skipped by the per-log expiry test), keyper
+     2 syncs everything in one range.  Nobody may fire: no messages at all in the code as it is
+   7 small: one identity, all three keypers send the same list in block 2 (the only universe small
+     enough for losses at every receiver under any delivery order in the quick tier) *)
 Designed == <<
-  [chain |-> <<B({"i1"}, 0, <<3, 0>>), B({"r1"}, 4, NoTs), B({"l1"}, 0, NoTs), B({"i2"}, 0, <<0, 8>>), NoB>>,
+  [name |-> "1-basic", chain |-> <<B({"i1"}, 0, <<3, 0>>), B({"r1"}, 4, NoTs), B({"l1"}, 0, NoTs), B({"i2"}, 0, <<0, 8>>), NoB>>,
    fork |-> [at |-> 3, b |-> B({"o"}, 0, NoTs)],
    idset |-> <<1, 1>>, trset |-> <<1>>, kind |-> <<"ok", "foreign">>, act |-> <<1, 2>>,
    sched |-> <<{1, 2, 3, 4, 5}, {2, 4, 5}, {1, 3, 5}>>],
-  [chain |-> <<B({"r1"}, 3, NoTs), B({"l1"}, 0, NoTs), B({"i1"}, 0, <<6, 0>>), NoB>>,
+  [name |-> "2-d6", chain |-> <<B({"r1"}, 3, NoTs), B({"l1"}, 0, NoTs), B({"i1"}, 0, <<6, 0>>), NoB>>,
    fork |-> [at |-> 2, b |-> NoB],
    idset |-> <<1, 1>>, trset |-> <<1>>, kind |-> <<"ok", "foreign">>, act |-> <<1, 2>>,
    sched |-> <<{1, 2, 3, 4}, {2, 3, 4}, {1, 3, 4}>>],
-  [chain |-> <<B({"r1"}, 2, NoTs), B({"o"}, 0, NoTs), B({"l1"}, 0, NoTs), B({"i1", "i2"}, 0, <<9, 8>>), NoB>>,
+  [name |-> "3-expiry", chain |-> <<B({"r1"}, 2, NoTs), B({"o"}, 0, NoTs), B({"l1"}, 0, NoTs), B({"i1", "i2"}, 0, <<9, 8>>), NoB>>,
    fork |-> [at |-> 4, b |-> B({"i2"}, 0, <<0, 9>>)],
    idset |-> <<1, 1>>, trset |-> <<1>>, kind |-> <<"ok", "foreign">>, act |-> <<1, 2>>,
    sched |-> <<{1, 2, 3, 4, 5}, {2, 4, 5}, {1, 3, 5}>>],
-  [chain |-> <<B({"i1", "i2"}, 0, <<3, 3>>), NoB, B({"r1"}, 5, NoTs), B({"l1"}, 0, NoTs)>>,
+  [name |-> "4-foreign-activation", chain |-> <<B({"i1", "i2"}, 0, <<3, 3>>), NoB, B({"r1"}, 5, NoTs), B({"l1"}, 0, NoTs)>>,
    fork |-> NoFork,
    idset |-> <<2, 1>>, trset |-> <<1>>, kind |-> <<"ok", "foreign">>, act |-> <<3, 1>>,
    sched |-> <<{1, 2, 3, 4}, {1, 3, 4}, {3, 4}>>],
-  [chain |-> <<B({"r1", "l1"}, 4, NoTs), B({"i1", "i2"}, 0, <<5, 5>>), B({"l1"}, 0, NoTs), B({"l1"}, 0, NoTs)>>,
+  [name |-> "5-faileddkg-twologs", chain |-> <<B({"r1", "l1"}, 4, NoTs), B({"i1", "i2"}, 0, <<5, 5>>), B({"l1"}, 0, NoTs), B({"l1"}, 0, NoTs)>>,
    fork |-> NoFork,
    idset |-> <<1, 2>>, trset |-> <<1>>, kind |-> <<"ok", "failed">>, act |-> <<1, 2>>,
    sched |-> <<{1, 2, 3, 4}, {1, 2, 4}, {2, 4}>>],
-  [chain |-> <<B({"i1", "i2", "r1"}, 3, <<2, 3>>), B({"l1"}, 0, NoTs), NoB>>,
+  [name |-> "6-early", chain |-> <<B({"i1", "i2", "r1"}, 3, <<3, 2>>), B({"l1"}, 0, NoTs), NoB>>,
    fork |-> [at |-> 2, b |-> B({"o"}, 0, NoTs)],
    idset |-> <<1, 1>>, trset |-> <<1>>, kind |-> <<"ok", "foreign">>, act |-> <<1, 2>>,
    sched |-> <<{1, 2, 3}, {2, 3}, {1, 3}>>],
-  [chain |-> <<B({"i1", "r1"}, 3, <<2, 0>>), B({"l1"}, 0, NoTs), NoB>>,
+  [name |-> "7-one-list", chain |-> <<B({"i1"}, 0, <<2, 0>>), NoB, NoB>>,
    fork |-> NoFork,
    idset |-> <<1, 1>>, trset |-> <<1>>, kind |-> <<"ok", "foreign">>, act |-> <<1, 2>>,
-   sched |-> <<{1, 2, 3}, {1, 2, 3}, {2, 3}>>] >>
+   sched |-> <<{1, 2, 3}, {1, 2, 3}, {2, 3}>>],
+  [name |-> "8-expiry-edge", chain |-> <<B({"r1"}, 2, NoTs), NoB, B({"l1"}, 0, NoTs)>>,
+   fork |-> NoFork,
+   idset |-> <<1, 1>>, trset |-> <<1>>, kind |-> <<"ok", "foreign">>, act |-> <<1, 2>>,
+   sched |-> <<{1, 2, 3}, {1, 3}, {3}>>] >>
 
 (* seeded universes: one option per block, then the static part, then one schedule per keyper *)
 BlockOpts == <<
@@ -132,7 +147,7 @@ Decode(k, n, used) ==      \* a registration token is used at most once (a secon
                     [x \in 1..NI |-> IF TokI(x) \in evs THEN TimeOf(n) + o.to ELSE 0])
          IN <<b>> \o Decode(k, n + 1, used \cup evs)
 UniAt(k) == LET s == StaticOpts[Digit(k, NB + 1) + 1] IN
-            [chain |-> Decode(k, 1, {}), fork |-> NoFork, idset |-> s.idset, trset |-> <<1>>, kind |-> s.kind, act |-> s.act,
+            [name |-> "seeded", chain |-> Decode(k, 1, {}), fork |-> NoFork, idset |-> s.idset, trset |-> <<1>>, kind |-> s.kind, act |-> s.act,
              sched |-> [i \in 1..K |-> SchedOpts[Digit(k, NB + 1 + i) + 1]]]
 
 Universes == [q \in DOMAIN DesignedIdx |-> Designed[DesignedIdx[q]]] \o [q \in DOMAIN UniIdx |-> UniAt(UniIdx[q])]
@@ -150,6 +165,7 @@ NetEmpty(n) == IF Order = "fifo" THEN \A l \in Links : n[l] = <<>> ELSE n = Empt
 (* what can be delivered (or lost) next *)
 Deliverable(n) == IF Order = "fifo" THEN {[m |-> Head(n[l]), d |-> l[2]] : l \in {q \in Links : n[q] # <<>>}}
                   ELSE BagToSet(n)
+NetSize(n) == IF Order = "fifo" THEN FoldSet(LAMBDA l, acc : acc + Len(n[l]), 0, Links) ELSE BagCardinality(n)
 NetRemove(n, pk) == IF Order = "fifo" THEN [n EXCEPT ![<<pk.m.from, pk.d>>] = Tail(@)]
                     ELSE n (-) SetToBag({pk})
 (* the messages node i published in this step (prod, in order; own validators accepted) *)
@@ -205,14 +221,15 @@ Fork ==
 
 HypRec(j) ==
     LET p == ProcBlock(U, ks[j], nd[j], j, blk, canon) IN
-    ProcRec(j, canon, lastp[j], p.out, DecSlots(U, ks[j]), CutsFold(cuts[j], p.mseq, 1))
+    ProcRec(j, canon, lastp[j], p.out, DecSlots(U, p.ks), CutsFold(cuts[j], p.mseq, 1))
 
 Proc(k) ==
     /\ Due(k)
+    /\ NetSize(net) <= ProcNet          \* state-space bound only: a keyper starts on a block when at most ProcNet packets are in flight
     /\ LET p    == ProcBlock(U, ks[k], nd[k], k, blk, canon)
            pub  == G!Publish(p.nd, k, Flat(p.out, 1), 1)
            c2   == CutsFold(cuts[k], p.mseq, 1)
-           rec  == ProcRec(k, canon, lastp[k], p.out, DecSlots(U, ks[k]), c2)
+           rec  == ProcRec(k, canon, lastp[k], p.out, DecSlots(U, p.ks), c2)
            e2   == UNION {E2Failed(blk, rec, HypRec(j)) : j \in {q \in Nodes \ {k} : lastp[q] = lastp[k] /\ Due(q)}}
        IN /\ ks' = [ks EXCEPT ![k] = p.ks]
           /\ nd' = [nd EXCEPT ![k] = p.nd]
